@@ -182,6 +182,54 @@ def damage_debug_line(data):
     return None
 
 
+def job_hard_in_predicates(payload):
+    """Hard run-time failures (too few values for dup / drop / swap / rot / over, for an id block) raised INSIDE what stands in predicate
+    position -- ?( ), !( ), infix operands, `if` conditions, blocks applied there: they surface through zw_result_next like anywhere else
+    (the reference evaluator says which executions raise)."""
+    seed, count = payload
+    from vf import zast
+    d = common.get_driver()
+    rng = random.Random(seed)
+    out = {"hard_in_predicate_runs": 0, "hard_in_predicate_raised": 0, "bad": [], "n": 0, "rejected": 0, "accepted": 0, "runtime_errors": 0}
+    I = lambda v: ("int", v, "dec")
+    W = lambda w: ("word", w)
+    for i in range(count):
+        x = rng.choice([W("drop"), W("swap"), W("rot"), W("dup"), W("over"), ("cat", [W("drop"), W("drop")]), ("paren", ("A", "B"), ("read", "A")), ("cat", [W("swap"), W("drop")])])
+        k = rng.random()
+        if k < 0.2:
+            w = ("sub", rng.random() < 0.5, (), x)
+        elif k < 0.4:
+            w = ("infix", x, rng.choice(["==", "!=", "<"]), I(1)) if rng.random() < 0.5 else ("infix", I(1), "==", x)
+        elif k < 0.55:
+            w = ("if", ("sub", True, (), x), I(1), I(2))
+        elif k < 0.7:
+            w = ("cap", (), ("cat", [I(1), ("sub", False, (), ("cat", [x, x]))]))
+        elif k < 0.85:
+            w = ("cat", [("block", (), ("sub", True, (), x)), W("apply")])
+        else:
+            w = ("sub", True, (), ("sub", False, (), ("infix", x, "==", x)))
+        pre = [rng.choice([I(7), ("str", [b"s"]), ("elist",)]) for _ in range(rng.choice([0, 0, 1, 1, 2, 3]))]
+        if rng.random() < 0.3:
+            pre = [("alt", [("cat", pre), ("cat", pre + [I(5)])])] if pre else [("alt", [("cat", []), I(5)])]
+        prog = ("cat", pre + [w])
+        t = zast.text(prog)
+        try:
+            why, m, r = zcheck.o1(d, prog, t)
+            out["hard_in_predicate_runs"] += 1
+            if r["st"] == "error":
+                out["hard_in_predicate_raised"] += 1
+            if r.get("evbad"):
+                out["bad"].append(("api-contract", dict(text=t, ev=r["ev"])))
+            if why:
+                out["bad"].append(("run-time-failure-inside-a-predicate:%s" % why, dict(text=t, **zcheck.describe(m, r))))
+        except common.DriverCrash as ex:
+            out["bad"].append(("crash:" + getattr(ex, "key", ex.kind), dict(text=t, report=ex.report[-3000:])))
+        except common.DriverTimeout as ex:
+            out["bad"].append(("hang", dict(text=t)))
+    out["bad"] = out["bad"][:30]
+    return out
+
+
 def job_dwapi(payload):
     """Fallible calls of libzwerg-dw.h: opening things that are not (usable) DWARF files, and querying what does open.
     The driver's wrapper records for every call whether NULL/false came with an error object (and a message) and vice versa."""
@@ -345,6 +393,7 @@ def run(chk):
     tot, ctx, samples = {}, {}, []
     zcheck.consume(chk, pool.map(job, jobs), tot, ctx, samples, "C14")
     zcheck.consume(chk, pool.map(job_pullfail, [(chk.seed + i, 100) for i in range(8 if quick else 80)]), tot, ctx, samples, "C14 pull failures")
+    zcheck.consume(chk, pool.map(job_hard_in_predicates, [(chk.seed * 53 + i, 100) for i in range(8 if quick else 160)]), tot, ctx, samples, "C14 hard failures in predicates")
     zcheck.consume(chk, pool.map(job_dwapi, [(chk.seed * 13 + i,) for i in range(4 if quick else 40)]), tot, ctx, samples, "C14 dwarf api")
     cli_texts = rng.sample(fixed, 350 if quick else 3000)
     for i in range(200 if quick else 4000):
@@ -354,6 +403,7 @@ def run(chk):
     hs = pool.hook_stats()
     pool.finish()
     chk.cov.update({
+        "programs_failing_hard_inside_a_predicate_position": tot.get("hard_in_predicate_runs", 0), "of_which_raised_as_the_reference_says": tot.get("hard_in_predicate_raised", 0),
         "fallible_dwarf_api_calls_on_bad_and_good_files": tot.get("dwapi_calls", 0), "of_which_refused_with_error": tot.get("dwapi_open_failed", 0),
         "queries_on_values_opened_that_way": tot.get("dwapi_queries", 0),
         "values_read_through_public_accessors_and_compared_with_internals": hs.get("api_accessor_reads"),
